@@ -861,8 +861,10 @@ impl<'s, I: Kind<'s>, R: Er<'s, I>> Bld<'s, I, R> {
             Lazy(a) => self.build(a).lazy().boxed(),
             StPush(a, t) => {
                 let t = *t;
+                // validate() runs its closure in parse and in check mode alike (map_with closures
+                // may legitimately be skipped when the value is not needed)
                 self.build(a)
-                    .map_with(move |v, e| {
+                    .validate(move |v, e, _em| {
                         e.state().log.push(t);
                         v
                     })
